@@ -930,13 +930,37 @@ def local_zone(col, zone):
     col.exhaustive.setdefault(sub, False)
 
 
+def compare_huge(col):
+    """Second counts far beyond the distance from now to either end of the
+    datetime range ("never expires": 10**11 s is 3000 years) but within
+    timedelta's range: now - t and the second count are both representable,
+    now -+ seconds is not."""
+    sub = 'compare/huge'
+    A = to_us(datetime.datetime(2001, 2, 3, 4, 5, 6, 7))
+    C = to_us(datetime.datetime(2038, 1, 19, 3, 14, 8))
+    for T in (A, C, LO + DAY_US, HI - DAY_US):
+        for that in (T, T - DAY_US, T + DAY_US, LO, HI):
+            for n in (6 * 10 ** 10, 7 * 10 ** 10, 10 ** 11, 3 * 10 ** 11,
+                      10 ** 12, 86399999999999, -10 ** 11, -3 * 10 ** 11,
+                      -86000000000000):
+                for fn in ('older', 'newer'):
+                    for tz in (['naive'], ['utc', 'timezone.utc'],
+                               ['fixed', 330]):
+                        oracle_compare(col, {
+                            'fn': fn, 'T': T, 'that': that, 's': ['int', n],
+                            'tz': tz, 'as_str': False, 'mode': 'direct'},
+                            sub)
+    col.exhaustive.setdefault(sub, True)
+
+
 def tasks(tier, seed):
     if tier == 'quick':
         n, shards = 2000, 1
     else:
         n, shards = 8000, 2
     out = [Task('foldpairs', fold_pairs),
-           Task('override', override_histories)]
+           Task('override', override_histories),
+           Task('compare/huge', compare_huge)]
     for z in PROCESS_ZONES:
         out.append(Task('localzone', local_zone, zone=z))
     step = 360
